@@ -481,6 +481,9 @@ fn handle_xgroup_setid(storage: &Arc<StorageEngine>, db: usize, parts: &[RespFra
         stream.last_entry()
             .map(|e| e.id)
             .unwrap_or(StreamId::new(0, 0))
+    } else if id_str == "0" || id_str == "0-0" {
+        // Same spelling of the beginning of the stream as XGROUP CREATE accepts
+        StreamId::new(0, 0)
     } else {
         match StreamId::from_string(&id_str) {
             Some(id) => id,
